@@ -508,3 +508,106 @@ func TestVerifBounded_C17_ListenerAddedWhileStopping(t *testing.T) {
 		t.Fatalf("%d violations", fails)
 	}
 }
+
+// Idle and timer services (named in the property's quantifier): a timer iteration that returns an error makes the
+// service fail with exactly that error, whether the error arrives while running, after StopAsync or after the parent
+// context was cancelled (the iteration is held until the stop request is in); an iteration that returns nil after a stop
+// request ends Terminated; an idle service terminates cleanly and reports a failing stop function.
+func TestVerifBounded_C17_TimerAndIdle(t *testing.T) {
+	cases, fails := 0, 0
+	report := func(id, msg string) {
+		fails++
+		if fails <= 5 {
+			fmt.Printf("BOUNDED-VIOLATION case=%s %s\n", id, msg)
+		}
+	}
+	for _, iterErr := range []bool{false, true} {
+		for stopHow := 0; stopHow < 3; stopHow++ { // 0: no stop request (error while running), 1: StopAsync during the iteration, 2: parent cancel during it
+			if !iterErr && stopHow == 0 {
+				continue
+			}
+			cases++
+			id := fmt.Sprintf("c17-timer:iterErr=%v:stop=%d", iterErr, stopHow)
+			boom := errors.New("iteration failed")
+			entered := make(chan struct{}, 1)
+			var stopArg error
+			stopCalled := make(chan struct{})
+			iter := func(ctx context.Context) error {
+				select {
+				case entered <- struct{}{}:
+				default:
+				}
+				if stopHow != 0 {
+					<-ctx.Done() // the result arrives after the stop request
+				}
+				if iterErr {
+					return boom
+				}
+				return nil
+			}
+			svc := NewTimerService(time.Millisecond, nil, iter, func(e error) error { stopArg = e; close(stopCalled); return nil })
+			parent, cancelParent := context.WithCancel(context.Background())
+			_ = svc.StartAsync(parent)
+			if err := svc.AwaitRunning(context.Background()); err != nil && stopHow != 0 {
+				report(id+":setup", "AwaitRunning: "+err.Error())
+			}
+			select {
+			case <-entered:
+			case <-time.After(10 * time.Second):
+				report(id+":setup", "no iteration ran")
+			}
+			switch stopHow {
+			case 1:
+				svc.StopAsync()
+			case 2:
+				cancelParent()
+			}
+			ctx, cancel := context.WithTimeout(context.Background(), 20*time.Second)
+			terr := svc.AwaitTerminated(ctx)
+			cancel()
+			cancelParent()
+			<-stopCalled
+			if iterErr {
+				if svc.State() != Failed || !errors.Is(svc.FailureCase(), boom) || terr == nil {
+					report(id+":failure-cause", fmt.Sprintf("an iteration returned an error: state %v, failure case %v, AwaitTerminated=%v; expected Failed with the iteration's error", svc.State(), svc.FailureCase(), terr))
+				}
+				if !errors.Is(stopArg, boom) {
+					report(id+":stopping-arg", fmt.Sprintf("stopping function received %v, expected the iteration's error", stopArg))
+				}
+			} else if svc.State() != Terminated || svc.FailureCase() != nil || terr != nil {
+				report(id+":clean", fmt.Sprintf("no function failed: state %v, failure case %v, AwaitTerminated=%v", svc.State(), svc.FailureCase(), terr))
+			}
+		}
+	}
+	for _, stopErr := range []bool{false, true} {
+		cases++
+		id := fmt.Sprintf("c17-idle:stopErr=%v", stopErr)
+		boom := errors.New("stop failed")
+		svc := NewIdleService(nil, func(error) error {
+			if stopErr {
+				return boom
+			}
+			return nil
+		})
+		_ = svc.StartAsync(context.Background())
+		_ = svc.AwaitRunning(context.Background())
+		time.Sleep(2 * time.Millisecond)
+		if svc.State() != Running {
+			report(id+":running", fmt.Sprintf("an idle service left Running by itself: %v", svc.State()))
+		}
+		svc.StopAsync()
+		ctx, cancel := context.WithTimeout(context.Background(), 20*time.Second)
+		terr := svc.AwaitTerminated(ctx)
+		cancel()
+		if stopErr && (svc.State() != Failed || !errors.Is(svc.FailureCase(), boom)) {
+			report(id+":failure-cause", fmt.Sprintf("state %v failure %v", svc.State(), svc.FailureCase()))
+		}
+		if !stopErr && (svc.State() != Terminated || terr != nil) {
+			report(id+":clean", fmt.Sprintf("state %v AwaitTerminated=%v", svc.State(), terr))
+		}
+	}
+	fmt.Printf("BOUNDED-CASES name=C17_TimerAndIdle n=%d distinct=%d bound=timer service: iteration result nil/error x (while running, after StopAsync, after parent cancel); idle service: stop nil/error\n", cases, cases)
+	if fails > 0 {
+		t.Fatalf("%d violations", fails)
+	}
+}
